@@ -138,7 +138,8 @@ def gen_ens_case(rng, tier, fn):
     start0 = rng.choice([0, 0, 2, 11])
     for pid in ids:
         k, fr = gen_frames(rng, 'quick')
-        fr = [f % 1000 + start0 for f in fr][:16]
+        off = rng.choice([0, 0, 0, 1, 2, 5])
+        fr = [f - fr[0] + start0 + off for f in fr][:16]
         if len(fr) == 1 and rng.random() < 0.7:
             fr = fr + [fr[0] + 1 + rng.randint(0, 2)]
         _, pos = gen_positions(rng, len(fr), ndim)
@@ -383,7 +384,7 @@ def run_cases(chk, cases, tag='cases'):
         kept.append(jc)
     import time
     t0 = time.time()
-    res = common.coq_eval_lists(chk.work, IMPORTS, FUNC, terms, shard=60, tag=tag)
+    res = common.coq_eval_lists(chk.work, IMPORTS, FUNC, terms, shard=24, tag=tag)
     chk.coverage['coq_eval_s'] = round(chk.coverage.get('coq_eval_s', 0) + time.time() - t0, 1)
     for jc, r in zip(kept, res):
         chk.count((jc['kind'], jc['rows'], jc['mpp'], jc['fps'], jc['max_lagtime']), nontrivial(jc))
